@@ -284,6 +284,66 @@ static std::string load_dump(const std::string& path, double unit, const Set<Tag
     return "";
 }
 
+
+// gds_info / gds_units / gds_timestamp on a file versus their models (I line) and versus the full load (P line)
+static void info_case(Out& out, const char* kind, const std::string& path, const std::vector<uint8_t>& bytes, const tm* expect_tm) {
+    tm t = {};
+    if (expect_tm) t = *expect_tm;
+
+            std::string id = out.add(kind, hex_bytes(bytes.data(), bytes.size()));
+            LibraryInfo info = {};
+            ErrorCode err = gds_info(path.c_str(), info);
+            std::string s = (int)err >= (int)ErrorCode::ChecksumError ? "ERR" : "OK";
+            s += " " + num((int64_t)info.cell_names.count);
+            for (uint64_t i = 0; i < info.cell_names.count; i++) s += " " + hexs(info.cell_names[i]);
+            s += " " + num((int64_t)info.num_polygons) + " " + num((int64_t)info.num_paths) + " " + num((int64_t)info.num_references) + " " +
+                 num((int64_t)info.num_labels);
+            std::vector<std::pair<uint32_t, uint32_t>> stags, ltags;
+            for (SetItem<Tag>* i2 = info.shape_tags.next(NULL); i2; i2 = info.shape_tags.next(i2)) stags.push_back({get_layer(i2->value), get_type(i2->value)});
+            for (SetItem<Tag>* i2 = info.label_tags.next(NULL); i2; i2 = info.label_tags.next(i2)) ltags.push_back({get_layer(i2->value), get_type(i2->value)});
+            std::sort(stags.begin(), stags.end());
+            std::sort(ltags.begin(), ltags.end());
+            s += " S";
+            for (auto& tg : stags) s += " " + num(tg.first) + ":" + num(tg.second);
+            s += " L";
+            for (auto& tg : ltags) s += " " + num(tg.first) + ":" + num(tg.second);
+            out.I(id, s);
+            // oracle against the full load
+            ErrorCode e2 = ErrorCode::NoError;
+            Library full = read_gds(path.c_str(), 0, 0, NULL, &e2);
+            std::string verdict = "ok";
+            uint64_t np = 0, nh = 0, nr = 0, nl = 0;
+            std::set<std::pair<uint32_t, uint32_t>> fs, fl;
+            for (uint64_t i = 0; i < full.cell_array.count; i++) {
+                Cell* c = full.cell_array[i];
+                np += c->polygon_array.count;
+                nh += c->flexpath_array.count;
+                nr += c->reference_array.count;
+                nl += c->label_array.count;
+                for (uint64_t j = 0; j < c->polygon_array.count; j++) fs.insert({get_layer(c->polygon_array[j]->tag), get_type(c->polygon_array[j]->tag)});
+                for (uint64_t j = 0; j < c->flexpath_array.count; j++) fs.insert({get_layer(c->flexpath_array[j]->elements[0].tag), get_type(c->flexpath_array[j]->elements[0].tag)});
+                for (uint64_t j = 0; j < c->label_array.count; j++) fl.insert({get_layer(c->label_array[j]->tag), get_type(c->label_array[j]->tag)});
+                if (i >= info.cell_names.count || strcmp(info.cell_names[i], c->name) != 0) verdict = "FAIL gds_info-vs-load cell names differ";
+            }
+            if (full.cell_array.count != info.cell_names.count) verdict = "FAIL gds_info-vs-load cell count differs";
+            if (np != info.num_polygons || nh != info.num_paths || nr != info.num_references || nl != info.num_labels)
+                verdict = "FAIL gds_info-vs-load element counts differ";
+            if (std::vector<std::pair<uint32_t, uint32_t>>(fs.begin(), fs.end()) != stags) verdict = "FAIL gds_info-vs-load shape tags differ";
+            if (std::vector<std::pair<uint32_t, uint32_t>>(fl.begin(), fl.end()) != ltags) verdict = "FAIL gds_info-vs-load label tags differ";
+            if (info.unit != full.unit || info.precision != full.precision) verdict = "FAIL gds_info-vs-load unit/precision differ";
+            double u = 0, p = 0;
+            gds_units(path.c_str(), u, p);
+            if (u != full.unit || p != full.precision) verdict = "FAIL gds_units-vs-load unit/precision differ";
+            ErrorCode e3 = ErrorCode::NoError;
+            tm got = gds_timestamp(path.c_str(), NULL, &e3);
+            if (expect_tm && (got.tm_year != t.tm_year || got.tm_mon != t.tm_mon || got.tm_mday != t.tm_mday || got.tm_hour != t.tm_hour || got.tm_min != t.tm_min ||
+                got.tm_sec != t.tm_sec))
+                verdict = "FAIL gds_timestamp-vs-file timestamp differs from the one written";
+            out.P(id, verdict);
+            info.clear();
+            full.free_all();
+        }
+
 int main(int argc, char** argv) {
     if (argc < 4) return 2;
     uint64_t seed = strtoull(argv[1], NULL, 10);
@@ -312,6 +372,7 @@ int main(int argc, char** argv) {
         o.max_cells = 1 + (int)g.below(4);
         o.max_elems = 1 + (int)g.below(6);
         if (it % 7 == 3) o.with_reps = false;
+        if (it % 3 == 1) o.offgrid = true;  // sums of off-grid origins and offsets: one rounding, of the sum
         Library lib = gen_library(g, o);
         fix_library_for_plan(lib, o);
         std::string path = scratch + "/w.gds";
@@ -374,61 +435,7 @@ int main(int argc, char** argv) {
             }
             out.P(id, verdict);
         }
-        // ---- info: gds_info vs model, and vs the full load
-        if (want("info")) {
-            std::string id = out.add("info", hex_bytes(bytes.data(), bytes.size()));
-            LibraryInfo info = {};
-            ErrorCode err = gds_info(path.c_str(), info);
-            std::string s = (int)err >= (int)ErrorCode::ChecksumError ? "ERR" : "OK";
-            s += " " + num((int64_t)info.cell_names.count);
-            for (uint64_t i = 0; i < info.cell_names.count; i++) s += " " + hexs(info.cell_names[i]);
-            s += " " + num((int64_t)info.num_polygons) + " " + num((int64_t)info.num_paths) + " " + num((int64_t)info.num_references) + " " +
-                 num((int64_t)info.num_labels);
-            std::vector<std::pair<uint32_t, uint32_t>> stags, ltags;
-            for (SetItem<Tag>* i2 = info.shape_tags.next(NULL); i2; i2 = info.shape_tags.next(i2)) stags.push_back({get_layer(i2->value), get_type(i2->value)});
-            for (SetItem<Tag>* i2 = info.label_tags.next(NULL); i2; i2 = info.label_tags.next(i2)) ltags.push_back({get_layer(i2->value), get_type(i2->value)});
-            std::sort(stags.begin(), stags.end());
-            std::sort(ltags.begin(), ltags.end());
-            s += " S";
-            for (auto& tg : stags) s += " " + num(tg.first) + ":" + num(tg.second);
-            s += " L";
-            for (auto& tg : ltags) s += " " + num(tg.first) + ":" + num(tg.second);
-            out.I(id, s);
-            // oracle against the full load
-            ErrorCode e2 = ErrorCode::NoError;
-            Library full = read_gds(path.c_str(), 0, 0, NULL, &e2);
-            std::string verdict = "ok";
-            uint64_t np = 0, nh = 0, nr = 0, nl = 0;
-            std::set<std::pair<uint32_t, uint32_t>> fs, fl;
-            for (uint64_t i = 0; i < full.cell_array.count; i++) {
-                Cell* c = full.cell_array[i];
-                np += c->polygon_array.count;
-                nh += c->flexpath_array.count;
-                nr += c->reference_array.count;
-                nl += c->label_array.count;
-                for (uint64_t j = 0; j < c->polygon_array.count; j++) fs.insert({get_layer(c->polygon_array[j]->tag), get_type(c->polygon_array[j]->tag)});
-                for (uint64_t j = 0; j < c->flexpath_array.count; j++) fs.insert({get_layer(c->flexpath_array[j]->elements[0].tag), get_type(c->flexpath_array[j]->elements[0].tag)});
-                for (uint64_t j = 0; j < c->label_array.count; j++) fl.insert({get_layer(c->label_array[j]->tag), get_type(c->label_array[j]->tag)});
-                if (i >= info.cell_names.count || strcmp(info.cell_names[i], c->name) != 0) verdict = "FAIL gds_info-vs-load cell names differ";
-            }
-            if (full.cell_array.count != info.cell_names.count) verdict = "FAIL gds_info-vs-load cell count differs";
-            if (np != info.num_polygons || nh != info.num_paths || nr != info.num_references || nl != info.num_labels)
-                verdict = "FAIL gds_info-vs-load element counts differ";
-            if (std::vector<std::pair<uint32_t, uint32_t>>(fs.begin(), fs.end()) != stags) verdict = "FAIL gds_info-vs-load shape tags differ";
-            if (std::vector<std::pair<uint32_t, uint32_t>>(fl.begin(), fl.end()) != ltags) verdict = "FAIL gds_info-vs-load label tags differ";
-            if (info.unit != full.unit || info.precision != full.precision) verdict = "FAIL gds_info-vs-load unit/precision differ";
-            double u = 0, p = 0;
-            gds_units(path.c_str(), u, p);
-            if (u != full.unit || p != full.precision) verdict = "FAIL gds_units-vs-load unit/precision differ";
-            ErrorCode e3 = ErrorCode::NoError;
-            tm got = gds_timestamp(path.c_str(), NULL, &e3);
-            if (got.tm_year != t.tm_year || got.tm_mon != t.tm_mon || got.tm_mday != t.tm_mday || got.tm_hour != t.tm_hour || got.tm_min != t.tm_min ||
-                got.tm_sec != t.tm_sec)
-                verdict = "FAIL gds_timestamp-vs-file timestamp differs from the one written";
-            out.P(id, verdict);
-            info.clear();
-            full.free_all();
-        }
+        if (want("info")) info_case(out, "info", path, bytes, &t);
         // ---- filter: load with tag filter == load everything then discard
         if (want("filter")) {
             Set<Tag> tags = {};
@@ -562,6 +569,30 @@ int main(int argc, char** argv) {
             }, 20);
             out.P(id, r2 == "ok" ? "ok" : "FAIL gds-rawcell-transplant " + r2);
         }
+        // ---- gw: the incremental writer (gdswriter_init / write_cell / close) with an arbitrary library name
+        if (want("gw") && it % 2 == 0) {
+            std::string p2 = scratch + "/gw.gds";
+            std::string lname = rand_name(g, 9);
+            std::string r2 = in_child([&](FILE* o2) {
+                ErrorCode err = ErrorCode::NoError;
+                tm t2 = fixed_tm();
+                GdsWriter w = gdswriter_init(p2.c_str(), lname.c_str(), lib.unit, lib.precision, 0, &t2, &err);
+                for (uint64_t i = 0; i < lib.cell_array.count; i++) w.write_cell(*lib.cell_array[i]);
+                w.close();
+                fprintf(o2, "ok");
+            }, 20);
+            std::vector<uint8_t> gb = read_file(p2);
+            std::string id = out.add("gw", hex_bytes(gb.data(), gb.size()));
+            std::string st2;
+            std::string l2 = load_dump(p2, 0, NULL, false, &st2);
+            out.I(id, st2 == "ok" ? l2 : st2);
+            // oracle: same cells as Library::write_gds of the same library (the LIB name differs)
+            std::string expect = loaded;
+            size_t sp = expect.find(' ', 4);
+            std::string tail = sp == std::string::npos ? "" : expect.substr(sp);
+            std::string want_dump = "LIB " + hexs(lname.c_str()) + tail;
+            out.P(id, (r2 == "ok" && st2 == "ok" && l2 == want_dump) ? "ok" : "FAIL gdswriter-vs-write_gds file written through GdsWriter loads differently from Library::write_gds output");
+        }
         // ---- ts: rewriting timestamps changes only the 12 words after BGNLIB / BGNSTR headers
         if (want("ts") && it % 2 == 1) {
             std::string id = out.add("ts", hex_bytes(bytes.data(), bytes.size()));
@@ -609,6 +640,7 @@ int main(int argc, char** argv) {
         e.library(users[ui], meters[ui]);
         std::string path = scratch + "/s.gds";
         write_file(path, e.b.data(), e.b.size());
+        if (want("specinfo")) info_case(out, "specinfo", path, e.b, NULL);
         if (want("spec")) {
             std::string id = out.add("spec", hex_bytes(e.b.data(), e.b.size()));
             std::string st;
